@@ -375,6 +375,26 @@ theorem groupInput_bounds (m : Mode) (recs : List Rec) (k : Key) (S E : Int)
       obtain ⟨a, ha, rfl⟩ := List.mem_map.mp hd'
       exact hb a (relevant_sub .comp recs a (List.mem_filter.mp ha).1)
 
+/-! ### the condition columns are complementary on every pair of neighbouring rows -/
+
+theorem condsFrom_cons (prev : Option Row) (x : Row) (rest : List Row) :
+    condsFrom prev (x :: rest) =
+      ((match prev with | none => false | some y => prevCond y.rate x.rate),
+       (match rest with | [] => false | z :: _ => nextCond x.rate z.rate)) :: condsFrom (some x) rest := rfl
+
+theorem complementary_condsFrom : ∀ (rows : List Row) (prev : Option Row), Complementary (condsFrom prev rows) := by
+  intro rows
+  induction rows with
+  | nil => intro prev; simp [condsFrom, Complementary]
+  | cons x rest ih =>
+    intro prev
+    cases rest with
+    | nil => simp [condsFrom, Complementary]
+    | cons z zs =>
+      have ihz := ih (some x)
+      rw [condsFrom_cons] at ihz ⊢
+      exact ⟨prevCond_eq_not_nextCond x.rate z.rate, ihz⟩
+
 /-! ### calendar: the computation only sees differences of dates -/
 
 def Row.shift (k : Int) (r : Row) : Row := { r with date := r.date + k }
